@@ -51,80 +51,105 @@ func decodeAgainstRef(max int, pieces [][]byte, previous ...[]byte) (out decodeO
 		dst.Reset()
 		codec = websocket.NewFrameCodec(src, dst, max)
 	}
+	if readFromCap > 0 {
+		// the way a connection fills the buffer: ReadFrom takes what fits the free capacity and never grows the
+		// buffer; making room for what it asked for is the decoder's job
+		src.Reserve(readFromCap)
+	}
 	initialCap := src.Cap()
 	var fed []byte
 	offset := 0 // reference offset of the next frame in fed
 	lazy := 0   // bytes of the last returned frame, consumed at the next Decode
 	dead := false
 	for pi := 0; pi <= len(pieces); pi++ {
+		var piece []byte
 		if pi < len(pieces) {
-			fed = append(fed, pieces[pi]...)
-			_, _ = src.Write(pieces[pi])
+			piece = pieces[pi]
 		} else if len(pieces) > 0 {
 			break
 		}
-		for !dead {
-			avail := fed[offset:]
-			f, err := codec.Decode(src)
-			// what does the reference say?
-			declared, known := rfc6455.LengthKnown(avail)
-			switch {
-			case known && declared > uint64(max):
-				out.overMax = true
-				if err == nil {
-					return out, fmt.Sprintf("frame at offset %d declares %d bytes (max %d) and was yielded", offset, declared, max)
-				}
-				if errors.Is(err, sonicerrors.ErrNeedMore) {
-					return out, fmt.Sprintf("frame at offset %d declares %d bytes (max %d): decoder asks for more instead of rejecting", offset, declared, max)
-				}
-				out.terminal = "error"
-				dead = true
-			default:
-				rf, n, st := rfc6455.Parse(avail)
-				if st == rfc6455.NeedMore {
-					if err == nil {
-						return out, fmt.Sprintf("decoder yielded a frame of %d bytes at offset %d where only a partial frame (%d bytes) is present", len(f), offset, len(avail))
+	feeding:
+		for first := true; first || len(piece) > 0; first = false {
+			if len(piece) > 0 {
+				n := len(piece)
+				if readFromCap > 0 {
+					nn, _ := src.ReadFrom(bytes.NewReader(piece))
+					n = int(nn)
+					if n == 0 {
+						return out, fmt.Sprintf("the decoder asked for more bytes at offset %d and left no room for them: buffer length %d, capacity %d, %d bytes waiting in the transport (the reader would spin for ever)", offset, src.Len(), src.Cap(), len(piece))
 					}
-					if !errors.Is(err, sonicerrors.ErrNeedMore) {
-						return out, fmt.Sprintf("partial frame at offset %d (%d bytes available): decoder returned %v, want ErrNeedMore", offset, len(avail), err)
-					}
-					out.terminal = "needmore"
 				} else {
-					if err != nil {
-						return out, fmt.Sprintf("complete frame %v at offset %d: decoder returned %v", rf, offset, err)
+					_, _ = src.Write(piece)
+				}
+				fed = append(fed, piece[:n]...)
+				piece = piece[n:]
+			}
+			for !dead {
+				avail := fed[offset:]
+				f, err := codec.Decode(src)
+				// what does the reference say?
+				declared, known := rfc6455.LengthKnown(avail)
+				switch {
+				case known && declared > uint64(max):
+					out.overMax = true
+					if err == nil {
+						return out, fmt.Sprintf("frame at offset %d declares %d bytes (max %d) and was yielded", offset, declared, max)
 					}
-					raw := avail[:n]
-					if !bytes.Equal([]byte(f), raw) {
-						return out, fmt.Sprintf("frame at offset %d: decoder returned %d bytes %x.., wire has %d bytes %x..", offset, len(f), head(f, 16), n, head(raw, 16))
+					if errors.Is(err, sonicerrors.ErrNeedMore) {
+						return out, fmt.Sprintf("frame at offset %d declares %d bytes (max %d): decoder asks for more instead of rejecting", offset, declared, max)
 					}
-					if f.IsFIN() != rf.Fin || f.IsRSV1() != rf.Rsv1 || f.IsRSV2() != rf.Rsv2 || f.IsRSV3() != rf.Rsv3 ||
-						byte(f.Opcode()) != rf.Opcode || f.IsMasked() != rf.Masked || f.PayloadLength() != len(rf.Payload) {
-						return out, fmt.Sprintf("frame at offset %d: accessors disagree with the reference %v", offset, rf)
+					out.terminal = "error"
+					dead = true
+				default:
+					rf, n, st := rfc6455.Parse(avail)
+					if st == rfc6455.NeedMore {
+						if err == nil {
+							return out, fmt.Sprintf("decoder yielded a frame of %d bytes at offset %d where only a partial frame (%d bytes) is present", len(f), offset, len(avail))
+						}
+						if !errors.Is(err, sonicerrors.ErrNeedMore) {
+							return out, fmt.Sprintf("partial frame at offset %d (%d bytes available): decoder returned %v, want ErrNeedMore", offset, len(avail), err)
+						}
+						out.terminal = "needmore"
+					} else {
+						if err != nil {
+							return out, fmt.Sprintf("complete frame %v at offset %d: decoder returned %v", rf, offset, err)
+						}
+						raw := avail[:n]
+						if !bytes.Equal([]byte(f), raw) {
+							return out, fmt.Sprintf("frame at offset %d: decoder returned %d bytes %x.., wire has %d bytes %x..", offset, len(f), head(f, 16), n, head(raw, 16))
+						}
+						if f.IsFIN() != rf.Fin || f.IsRSV1() != rf.Rsv1 || f.IsRSV2() != rf.Rsv2 || f.IsRSV3() != rf.Rsv3 ||
+							byte(f.Opcode()) != rf.Opcode || f.IsMasked() != rf.Masked || f.PayloadLength() != len(rf.Payload) {
+							return out, fmt.Sprintf("frame at offset %d: accessors disagree with the reference %v", offset, rf)
+						}
+						wirePayload := raw[n-len(rf.Payload):]
+						if !bytes.Equal(f.Payload(), wirePayload) {
+							return out, fmt.Sprintf("frame at offset %d: Payload() differs from the wire payload", offset)
+						}
+						if rf.Masked && !bytes.Equal(f.Mask(), rf.Key[:]) {
+							return out, fmt.Sprintf("frame at offset %d: Mask() differs", offset)
+						}
+						out.frames++
+						out.lens = append(out.lens, n)
+						// bytes before this frame have been consumed, this frame is still buffered
+						if got, want := src.ReadLen()+src.WriteLen(), len(fed)-offset; got != want {
+							return out, fmt.Sprintf("after decoding the frame at offset %d the buffer holds %d bytes, want %d (previous frame must be consumed exactly)", offset, got, want)
+						}
+						offset += n
+						lazy = n
 					}
-					wirePayload := raw[n-len(rf.Payload):]
-					if !bytes.Equal(f.Payload(), wirePayload) {
-						return out, fmt.Sprintf("frame at offset %d: Payload() differs from the wire payload", offset)
-					}
-					if rf.Masked && !bytes.Equal(f.Mask(), rf.Key[:]) {
-						return out, fmt.Sprintf("frame at offset %d: Mask() differs", offset)
-					}
-					out.frames++
-					out.lens = append(out.lens, n)
-					// bytes before this frame have been consumed, this frame is still buffered
-					if got, want := src.ReadLen()+src.WriteLen(), len(fed)-offset; got != want {
-						return out, fmt.Sprintf("after decoding the frame at offset %d the buffer holds %d bytes, want %d (previous frame must be consumed exactly)", offset, got, want)
-					}
-					offset += n
-					lazy = n
+				}
+				_ = lazy
+				bound := 2*(len(fed)+max+64) + initialCap
+				if src.Cap() > bound {
+					return out, fmt.Sprintf("buffer capacity grew to %d (fed %d bytes, max %d): decoder buffers for an oversized frame", src.Cap(), len(fed), max)
+				}
+				if out.terminal == "needmore" && err != nil && errors.Is(err, sonicerrors.ErrNeedMore) {
+					break
 				}
 			}
-			_ = lazy
-			bound := 2*(len(fed)+max+64) + initialCap
-			if src.Cap() > bound {
-				return out, fmt.Sprintf("buffer capacity grew to %d (fed %d bytes, max %d): decoder buffers for an oversized frame", src.Cap(), len(fed), max)
-			}
-			if out.terminal == "needmore" && err != nil && errors.Is(err, sonicerrors.ErrNeedMore) {
-				break
+			if dead {
+				break feeding
 			}
 		}
 		if dead {
@@ -133,6 +158,10 @@ func decodeAgainstRef(max int, pieces [][]byte, previous ...[]byte) (out decodeO
 	}
 	return out, ""
 }
+
+// readFromCap > 0 makes decodeAgainstRef fill the buffer with ByteBuffer.ReadFrom from a buffer of that initial capacity
+// instead of Write (set around a call; the checks are sequential).
+var readFromCap int
 
 func head(b []byte, n int) []byte {
 	if len(b) > n {
@@ -221,7 +250,7 @@ func splitBytes(t *rapid.T, b []byte, maxPieces int, lbl string) ([][]byte, []in
 
 func TestC07_DecoderVsReference(t *testing.T) {
 	rec := evid.For("C07")
-	rec.SetRule("rapid: byte streams built from 1..5 frames over all header bits x opcode 0..15 x mask x length classes {0,1,125,126,127,65535,65536,max-1,max, non-minimal encodings, declared lengths max+1, 2^31, 2^32, 2^63, 2^64-1 (header lies)}, optionally truncated or followed by arbitrary bytes, or fully arbitrary bytes; each stream fed whole and under a generated split into 1..4 pieces (cuts biased into headers) to FrameCodec.Decode and compared call by call with an independent RFC 6455 parser (frame bytes, accessors, ErrNeedMore iff incomplete, error iff declared>max, exact consumption, bounded capacity); in a quarter of the cases additionally through buffers that held 1..3 (possibly truncated) frames of an earlier session, were decoded from, Reset and given to a new codec, as a re-handshaken Stream does: same outcome required; plus Encode->Decode round trips; non-trivial = a 16/64-bit length OR a cut inside a frame header OR a declared length above max; distinct = hash of stream+cuts")
+	rec.SetRule("rapid: byte streams built from 1..5 frames over all header bits x opcode 0..15 x mask x length classes {0,1,125,126,127,65535,65536,max-1,max, non-minimal encodings, declared lengths max+1, 2^31, 2^32, 2^63, 2^64-1 (header lies)}, optionally truncated or followed by arbitrary bytes, or fully arbitrary bytes; each stream fed whole and under a generated split into 1..4 pieces (cuts biased into headers) to FrameCodec.Decode and compared call by call with an independent RFC 6455 parser (frame bytes, accessors, ErrNeedMore iff incomplete, error iff declared>max, exact consumption, bounded capacity); in a quarter of the cases additionally through buffers that held 1..3 (possibly truncated) frames of an earlier session, were decoded from, Reset and given to a new codec, as a re-handshaken Stream does: same outcome required; in a third of the cases additionally with the buffer filled by ByteBuffer.ReadFrom from an initial capacity of 32/128/4096 (ReadFrom never grows the buffer: a decoder that asks for more without making room is reported); plus Encode->Decode round trips; non-trivial = a 16/64-bit length OR a cut inside a frame header OR a declared length above max; distinct = hash of stream+cuts")
 	vt.Check(t, 4000, func(t *rapid.T) {
 		max := rapid.SampledFrom([]int{70000, 70000, 300, 125, 65536}).Draw(t, "max")
 		var stream []byte
@@ -270,6 +299,20 @@ func TestC07_DecoderVsReference(t *testing.T) {
 		if p2 != "" {
 			t.Fatalf("split input (max=%d, cuts=%v, %d bytes %x..): %s", max, cuts, len(stream), head(stream, 24), p2)
 		}
+		if rapid.IntRange(0, 2).Draw(t, "viaReadFrom") == 0 {
+			// the same input through ByteBuffer.ReadFrom, which is how CodecConn and the websocket stream fill the buffer
+			readFromCap = rapid.SampledFrom([]int{32, 128, 128, 4096}).Draw(t, "bufCap")
+			limited, p4 := decodeAgainstRef(max, pieces)
+			cap0 := readFromCap
+			readFromCap = 0
+			if p4 != "" {
+				t.Fatalf("split input (max=%d, cuts=%v, %d bytes %x..) read with ReadFrom into a buffer of capacity %d: %s", max, cuts, len(stream), head(stream, 24), cap0, p4)
+			}
+			if limited.frames != split.frames || limited.terminal != split.terminal || fmt.Sprint(limited.lens) != fmt.Sprint(split.lens) {
+				t.Fatalf("outcome depends on how the buffer is filled: Write=%+v ReadFrom(cap %d)=%+v cuts=%v stream=%x..", split, cap0, limited, cuts, head(stream, 24))
+			}
+			classes["filled-with-ReadFrom"] = true
+		}
 		if rapid.IntRange(0, 3).Draw(t, "reused") == 0 {
 			// the same input through buffers that served an earlier session
 			var prev []byte
@@ -296,7 +339,7 @@ func TestC07_DecoderVsReference(t *testing.T) {
 		}
 		nt := classes["16bit"] || classes["64bit"] || classes["over-max"] || cutInHeader
 		var cls []string
-		for _, k := range []string{"over-max", "64bit", "16bit", "7bit", "arbitrary", "truncated", "garbage-tail", "reused-buffers"} {
+		for _, k := range []string{"over-max", "64bit", "16bit", "7bit", "arbitrary", "truncated", "garbage-tail", "reused-buffers", "filled-with-ReadFrom"} {
 			if classes[k] {
 				cls = append(cls, k)
 			}
